@@ -2,6 +2,11 @@
 # regress.sh: for every (replay file, fix commit) pair check that the replay reports a violation on
 # the parent of the fix and none on the current tree. Scratch worktrees live under /tmp and are removed.
 cd "$(dirname "$0")/.." || exit 2
+# Not in the list: regress/C17-gcrange-wbuf-race.json (fix e04f813). It was recorded with the harness of
+# 2026-09-23; later changes of the concurrent engine (request storm, bounded-delay handling) shifted its
+# schedule and it no longer reproduces on the parent of the fix. Re-searching the defect with only that
+# fix reverted (4 runs, ~15 000 C17 worlds, quick and thorough, three seeds) did not hit the one-statement
+# window again (it had been 1 world in ~1500). The file is kept for the record.
 pairs="
 C01 regress/C01-meta-2566028507118315107.json 1511c2a
 C02 regress/C02-status-4183224183859179178.json 202bbc8
@@ -21,7 +26,6 @@ C12 regress/C12-counter-nonzero-7603118085941297519.json c385cf7
 C12 regress/C12-counter-nonzero-1182017169601261124.json f49c7eb
 C11 regress/C11-proto-extra-reply-8697307517601547343.json 1791069
 C05 regress/C05-panic-544459143161652846.json 6ab2777
-C17 regress/C17-gcrange-wbuf-race.json e04f813
 C11 regress/C11-proto-roundtrip-reply-3369049078810884284.json 5896adf
 C07 regress/C07-shutdown-during-gc-3563302134185838027.json 93602c9
 C15 regress/C15-second-route-reload-1201409606913257291.json 93361d6
